@@ -101,8 +101,7 @@ def setup(opts):
 
         def mk(name, orig):
             def base(self, *a):
-                mws = CUR.get("mws") or []
-                log(who(), "base", name, mws.index(self) if self in mws else -1)
+                log(who(), "base", name, getattr(self, "_rec_idx", -1))
                 return orig(self, *a)
             base.__name__ = name
             return base
@@ -138,15 +137,27 @@ class RecFormatter(ProxyFormatter):
     def dumps(self, message):
         w = who()
         if CUR.get("sending"):
-            log(w, "dumps", message.task_id, canon(message.labels))
+            log(w, "dumps", message.task_id, canon(message.labels), getattr(self.broker, "_rec_b", 0))
             if CUR["plan"].get(w, {}).get("kick") == "dumps_fail":
                 raise ValueError("cannot dump")
         return super().dumps(message)
 
 
+class StaleFormatter(ProxyFormatter):
+    """what the broker's formatter was before the real one was set: it must never be used"""
+
+    def loads(self, message):
+        log(who(), "formatter.stale")
+        return super().loads(message)
+
+
 class RecBackend(AsyncResultBackend):
     async def set_result(self, task_id, result):
         w = who()
+        if CUR["broker"].result_backend is not self:
+            # not (or no longer) the broker's result backend at the moment of the call: nobody reads from it
+            log(w, "save.stale", task_id)
+            return
         p = CUR["plan"][w]
         log(w, "save.enter", task_id, result.is_err, result.return_value, excid(result.error), canon(result.labels))
         await susp(p.get("save_susp"))
@@ -166,7 +177,7 @@ class ScriptedBroker(AsyncBroker):
     async def kick(self, message):
         w = who()
         p = CUR["plan"].get(w, {})
-        log(w, "kick", message.task_id, canon(message.labels))
+        log(w, "kick", message.task_id, canon(message.labels), getattr(self, "_rec_b", 0))
         await susp(p.get("kick_susp"))
         k = p.get("kick")
         if k == "kick_fail":
@@ -191,6 +202,82 @@ def typed_labels(tbl, idx):
     return out
 
 
+class Lazy:
+    """an awaitable that is NOT a coroutine object: nothing happens until somebody awaits it"""
+
+    def __init__(self, coro):
+        self._coro = coro
+
+    def __await__(self):
+        return self._coro.__await__()
+
+
+def inflight(x):
+    """awaitables handed to the code under test; the driver lets them finish before it takes the log, so that work the
+    pipeline did not wait for shows up as 'late' instead of vanishing with the loop"""
+    CUR.setdefault("inflight", []).append(x)
+    return x
+
+
+def styled(h, enter, finish):
+    """the hook callable in the calling convention h asks for.  enter(w, self, *a) logs the call and returns the
+    middleware index, finish(w, idx, *a) does the hook's work, logs its end and returns / raises; `w` (whose message it
+    is) is fixed when the hook is CALLED, the end may be logged from a loop callback or another task.
+      aw absent: `def` (async false) or `async def` (async true)
+      aw = coro   plain function returning a coroutine object
+      aw = task   plain function returning an asyncio.Task (work starts on the next loop iteration)
+      aw = future plain function that starts the work and returns an asyncio.Future completing `susp` ms later
+      aw = obj    plain function returning an object with __await__ (work starts only when awaited)
+    Every non-sync style must be awaited to completion by the pipeline exactly like an `async def` hook."""
+    st = h.get("aw")
+
+    async def acoro(w, self, *a):
+        idx = enter(w, self, *a)
+        await susp(h.get("susp"))
+        return finish(w, idx, *a)
+
+    if st is None:
+        if h["async"]:
+            async def f(self, *a):
+                return await acoro(who(), self, *a)
+        else:
+            def f(self, *a):
+                w = who()
+                return finish(w, enter(w, self, *a), *a)
+    elif st == "coro":
+        def f(self, *a):
+            return acoro(who(), self, *a)
+    elif st == "task":
+        def f(self, *a):
+            return inflight(asyncio.ensure_future(acoro(who(), self, *a)))
+    elif st == "obj":
+        def f(self, *a):
+            return Lazy(acoro(who(), self, *a))
+    elif st == "future":
+        def f(self, *a):
+            w = who()
+            idx = enter(w, self, *a)
+            loop = asyncio.get_running_loop()
+            fut = loop.create_future()
+
+            def complete():
+                try:
+                    r = finish(w, idx, *a)
+                except BaseException as e:   # noqa
+                    fut.set_exception(e)
+                else:
+                    fut.set_result(r)
+            d = h.get("susp")
+            if d is None:
+                complete()
+            else:
+                loop.call_later(d / 1000.0, complete)
+            return inflight(fut)
+    else:
+        raise ValueError(st)
+    return f
+
+
 def hook_fn(name, h, tbl):
     """the recording hook `name` with behaviour `h`.  The middleware's index is read from the instance
     (`self._rec_idx`): the function may live on a base class / mixin, and two instances may share one class."""
@@ -208,87 +295,54 @@ def hook_fn(name, h, tbl):
                     t.labels = typed_labels(tbl, h["labels"])
                 return t
             return m
-        if h["async"]:
-            async def f(self, m):
-                idx = self._rec_idx
-                log(who(), "hook", name, idx, m.task_id, canon(m.labels))
-                await susp(h.get("susp"))
-                try:
-                    o = act(m)
-                except BaseException:
-                    log(who(), "hook.exit", name, idx)
-                    raise
-                log(who(), "hook.exit", name, idx, o.task_id, canon(o.labels))
-                return o
-        else:
-            def f(self, m):
-                idx = self._rec_idx
-                log(who(), "hook", name, idx, m.task_id, canon(m.labels))
-                try:
-                    o = act(m)
-                except BaseException:
-                    log(who(), "hook.exit", name, idx)
-                    raise
-                log(who(), "hook.exit", name, idx, o.task_id, canon(o.labels))
-                return o
-        return f
+
+        def enter(w, self, m):
+            log(w, "hook", name, self._rec_idx, m.task_id, canon(m.labels))
+            return self._rec_idx
+
+        def finish(w, idx, m):
+            try:
+                o = act(m)
+            except BaseException:
+                log(w, "hook.exit", name, idx)
+                raise
+            log(w, "hook.exit", name, idx, o.task_id, canon(o.labels))
+            return o
+        return styled(h, enter, finish)
 
     def post_send_hook():
-        def act(m):
-            k = h["act"]
-            if k == "raise" or (k == "raise_odd" and tid(m) % 2 == 1):
-                raise CustomError("hook")
-        if h["async"]:
-            async def f(self, m):
-                idx = self._rec_idx
-                log(who(), "hook", name, idx, m.task_id, canon(m.labels))
-                await susp(h.get("susp"))
-                try:
-                    act(m)
-                finally:
-                    log(who(), "hook.exit", name, idx)
-        else:
-            def f(self, m):
-                idx = self._rec_idx
-                log(who(), "hook", name, idx, m.task_id, canon(m.labels))
-                try:
-                    act(m)
-                finally:
-                    log(who(), "hook.exit", name, idx)
-        return f
+        def enter(w, self, m):
+            log(w, "hook", name, self._rec_idx, m.task_id, canon(m.labels))
+            return self._rec_idx
+
+        def finish(w, idx, m):
+            try:
+                k = h["act"]
+                if k == "raise" or (k == "raise_odd" and tid(m) % 2 == 1):
+                    raise CustomError("hook")
+            finally:
+                log(w, "hook.exit", name, idx)
+        return styled(h, enter, finish)
 
     def res_hook():
-        def enter(idx, m, r, a):
-            ev = ["hook", name, idx, m.task_id, canon(m.labels), r.is_err, r.return_value, excid(r.error),
+        def enter(w, self, m, r, *a):
+            ev = ["hook", name, self._rec_idx, m.task_id, canon(m.labels), r.is_err, r.return_value, excid(r.error),
                   canon(r.labels)]
             if name == "on_error":
                 ev.append(excid(a[0]))
-            log(who(), *ev)
+            log(w, *ev)
+            return self._rec_idx
 
-        def act(r):
-            k = h["act"]
-            if k == "raise" or (k == "raise_val_odd" and isinstance(r.return_value, int) and r.return_value % 2 == 1):
-                raise CustomError("hook")
-            if k == "nores":
-                r.error = NoResultError()
-        if h["async"]:
-            async def f(self, m, r, *a):
-                idx = self._rec_idx
-                enter(idx, m, r, a)
-                await susp(h.get("susp"))
-                try:
-                    act(r)
-                finally:
-                    log(who(), "hook.exit", name, idx)
-        else:
-            def f(self, m, r, *a):
-                idx = self._rec_idx
-                enter(idx, m, r, a)
-                try:
-                    act(r)
-                finally:
-                    log(who(), "hook.exit", name, idx)
-        return f
+        def finish(w, idx, m, r, *a):
+            try:
+                k = h["act"]
+                if k == "raise" or (k == "raise_val_odd" and isinstance(r.return_value, int) and r.return_value % 2 == 1):
+                    raise CustomError("hook")
+                if k == "nores":
+                    r.error = NoResultError()
+            finally:
+                log(w, "hook.exit", name, idx)
+        return styled(h, enter, finish)
 
     f = msg_hook() if name in HOOKS_MSG else post_send_hook() if name == "post_send" else res_hook()
     f.__name__ = f.__qualname__ = name
@@ -354,9 +408,9 @@ def make_mw_class(idx, spec, tbl):
     return type("RecMw%d" % idx, bases, leaf)
 
 
-def make_mws(specs, tbl):
-    """one recording middleware per spec.  shape["twin"]: another INSTANCE of the previous middleware's class (honoured
-    only if the two specs describe the same hooks)."""
+def make_mws(specs, tbl, base=0):
+    """one recording middleware per spec, logging as index base + position.  shape["twin"]: another INSTANCE of the
+    previous middleware's class (honoured only if the two specs describe the same hooks)."""
     out, prev = [], None
     for idx, spec in enumerate(specs):
         shape = spec.get("shape") or {}
@@ -364,14 +418,14 @@ def make_mws(specs, tbl):
                 and bool((specs[idx - 1].get("shape") or {}).get("init")) == bool(shape.get("init")):
             cls = prev
         else:
-            cls = make_mw_class(idx, spec, tbl)
+            cls = make_mw_class(base + idx, spec, tbl)
         inst = cls("tenant%d" % idx) if shape.get("init") else cls()
-        inst._rec_idx = idx
+        inst._rec_idx = base + idx
         for name in HOOKS_ALL:
             h = spec.get(name)
             if h is not None and h.get("inst"):
                 # a hook that exists only as an instance attribute: the class does not override it, never called
-                def stray(*a, _n=name, _i=idx):
+                def stray(*a, _n=name, _i=base + idx):
                     log(who(), "base", _n, _i)
                     return a[0] if _n in HOOKS_MSG else None
                 setattr(inst, name, stray)
@@ -586,17 +640,116 @@ def run_on_loop(coro_fn):
         loop.close()
 
 
+def make_ack(i, M):
+    """the acknowledge callable of message i.  ackable = sync: plain function; async: `async def`; task / future / obj:
+    plain function returning an asyncio.Task / a Future completing ack_susp ms later / an object with __await__ (the
+    acknowledgement is made only when it is awaited) - awaitables that are not coroutines"""
+    st = M["ackable"]
+
+    async def acoro():
+        log(i, "ack")
+        await susp(M.get("ack_susp"))
+        log(i, "ack.exit")
+
+    if st == "sync":
+        def ack():
+            log(i, "ack")
+            log(i, "ack.exit")
+    elif st == "async":
+        async def ack():
+            await acoro()
+    elif st == "task":
+        def ack():
+            return inflight(asyncio.ensure_future(acoro()))
+    elif st == "obj":
+        def ack():
+            return Lazy(acoro())
+    elif st == "future":
+        def ack():
+            log(i, "ack")
+            loop = asyncio.get_running_loop()
+            fut = loop.create_future()
+
+            def complete():
+                log(i, "ack.exit")
+                fut.set_result(None)
+            d = M.get("ack_susp")
+            if d is None:
+                complete()
+            else:
+                loop.call_later(d / 1000.0, complete)
+            return inflight(fut)
+    else:
+        raise ValueError(st)
+    return ack
+
+
+async def drain_inflight():
+    """let the awaitables the driver handed out (tasks / futures of hooks and acks) finish"""
+    for _ in range(50):
+        pend = [x for x in CUR.get("inflight", []) if not x.done()]
+        if not pend:
+            return
+        await asyncio.wait(pend, timeout=1.0)
+
+
 def run_recv(case):
     tbl = case["labels"]
     msgs = case["msgs"]
+    # late binding: things a broker is given AFTER its Receiver was constructed (a WORKER_STARTUP handler calling
+    # with_result_backend, InMemoryBroker().with_result_backend(...), middlewares added by a plugin's startup code);
+    # the receiver must use what the broker has when the message is processed
+    late = case.get("late") or {}
 
     async def main(loop):
         broker = ScriptedBroker()
-        broker.formatter = RecFormatter(broker)
-        broker.result_backend = RecBackend()
         mws = make_mws(case["mws"], tbl)
-        broker.add_middlewares(*mws)
-        CUR.update(mws=mws, plan={i: M for i, M in enumerate(msgs)}, exec={}, sending=False)
+        CUR.update(broker=broker, mws=mws, plan={i: M for i, M in enumerate(msgs)}, exec={}, sending=False)
+        style = late.get("style", "assign")
+        nb = late.get("mws_before", len(mws)) if late else len(mws)
+
+        def set_formatter():
+            if style == "assign":
+                broker.formatter = RecFormatter(broker)
+            else:
+                broker.with_formatter(RecFormatter(broker))
+
+        def set_backend():
+            if style == "assign":
+                broker.result_backend = RecBackend()
+            else:
+                broker.with_result_backend(RecBackend())
+
+        def set_mws(part):
+            if style == "assign":
+                broker.add_middlewares(*part)
+            else:
+                broker.with_middlewares(*part)
+
+        def set_tasks():
+            for i, M in enumerate(msgs):
+                if M["kind"] != "bad":
+                    make_task(broker, i, M, loop)
+
+        def late_part():
+            if late.get("formatter"):
+                set_formatter()
+            if late.get("backend"):
+                set_backend()
+            set_mws(mws[nb:])
+            if late.get("tasks"):
+                set_tasks()
+
+        # ---- what the broker has before the Receiver exists
+        if late.get("formatter"):
+            broker.formatter = StaleFormatter(broker)
+        else:
+            broker.formatter = RecFormatter(broker)
+        if late.get("backend") == "rec":
+            broker.result_backend = RecBackend()      # an earlier backend, replaced below
+        elif not late.get("backend"):
+            broker.result_backend = RecBackend()
+        broker.add_middlewares(*mws[:nb])
         orig_find = broker.find_task
 
         def find_task(name):
@@ -605,9 +758,19 @@ def run_recv(case):
                 log(who(), "unknown")
             return t
         broker.find_task = find_task
-        for i, M in enumerate(msgs):
-            if M["kind"] != "bad":
-                make_task(broker, i, M, loop)
+        if not late.get("tasks"):
+            set_tasks()
+        if style == "startup":
+            from taskiq.events import TaskiqEvents
+            broker.is_worker_process = True
+            if late.get("handler_async"):
+                async def on_startup(state):
+                    await asyncio.sleep(0)
+                    late_part()
+            else:
+                def on_startup(state):
+                    late_part()
+            broker.add_event_handler(TaskiqEvents.WORKER_STARTUP, on_startup)
         at = case.get("ack_type")
         ex = _ScriptedExecutor(case["executor"]) if case.get("executor") else None
         if case.get("cli") is not None:
@@ -619,21 +782,17 @@ def run_recv(case):
             recv = Receiver(broker, executor=ex, max_async_tasks=None, run_startup=False,
                             propagate_exceptions=case["propagate"],
                             ack_type=AcknowledgeType(at) if at else None)
+        # ---- after the Receiver exists
+        if style == "startup":
+            await broker.startup()          # what Receiver.listen() does first (run_startup=True)
+        elif late:
+            late_part()
 
         async def one(i, M):
             await susp(M.get("arrive"))
             data = make_payload(broker, i, M, tbl)
-            if M["ackable"] == "sync":
-                def ack():
-                    log(i, "ack")
-                    log(i, "ack.exit")
-                msg = AckableMessage(data=data, ack=ack)
-            elif M["ackable"] == "async":
-                async def ack():
-                    log(i, "ack")
-                    await susp(M.get("ack_susp"))
-                    log(i, "ack.exit")
-                msg = AckableMessage(data=data, ack=ack)
+            if M["ackable"] != "none":
+                msg = AckableMessage(data=data, ack=make_ack(i, M))
             else:
                 msg = data
             try:
@@ -645,8 +804,16 @@ def run_recv(case):
             except BaseException as e:   # noqa
                 log(i, "crash", type(e).__name__)
 
+        async def swapper(ms):
+            # the application replaces the result backend while messages are being processed
+            await asyncio.sleep(ms / 1000.0)
+            set_backend()
+
         ts = [asyncio.create_task(one(i, M), name="m%d" % i) for i, M in enumerate(msgs)]
+        if late.get("swap_at") is not None:
+            ts.append(asyncio.create_task(swapper(late["swap_at"]), name="swap"))
         await asyncio.gather(*ts)
+        await drain_inflight()
         # let detached sync bodies (timed-out executor futures) finish so that their end is in the log
         await loop.drain_threads()
         return list(LOG), loop.time_us()     # snapshot before the loop is torn down
@@ -663,20 +830,29 @@ def run_recv(case):
 
 # ------------------------------------------------------------------------------------- send side
 def run_send(case):
+    """loose sends: one fresh kicker each, all concurrent (broker S["broker"], default 0).
+    chains (S["chain"] = c): the sends of one chain are STEPS on one AsyncKicker object, run one after the other by one
+    asyncio task (renamed m<i> for step i); before a later step S["op"] is applied to the kicker / its broker:
+    broker = b -> with_broker(brokers[b]); add_mws = [specs] -> more middlewares registered on the kicker's current
+    broker; labels_add = {..} -> with_labels(**..).  Every send must go through the middlewares its kicker's broker has
+    at that moment."""
     tbl = case["labels"]
     sends = case["sends"]
+    stacks = [case["mws"]] + list(case.get("brokers") or [])
 
     async def main(loop):
-        broker = ScriptedBroker()
-        broker.formatter = RecFormatter(broker)
-        broker.result_backend = RecBackend()
-        mws = make_mws(case["mws"], tbl)
-        broker.add_middlewares(*mws)
-        CUR.update(mws=mws, plan={i: S for i, S in enumerate(sends)}, exec={}, sending=True)
+        brokers = []
+        for b, specs in enumerate(stacks):
+            br = ScriptedBroker()
+            br._rec_b = b
+            br.formatter = RecFormatter(br)
+            br.result_backend = RecBackend()
+            br.add_middlewares(*make_mws(specs, tbl, base=100 * b))
+            brokers.append(br)
+        CUR.update(broker=brokers[0], mws=brokers[0].middlewares, plan={i: S for i, S in enumerate(sends)}, exec={},
+                   sending=True)
 
-        async def one(i, S):
-            await susp(S.get("arrive"))
-            k = AsyncKicker("t%d" % i, broker, typed_labels(tbl, S["labels"])).with_task_id("id%d" % S["id"])
+        async def step(i, k):
             try:
                 t = await k.kiq()
                 log(i, "sent", t.task_id)
@@ -684,8 +860,46 @@ def run_send(case):
                 log(i, "crash", "SendTaskError", type(e.__cause__).__name__)
             except BaseException as e:   # noqa
                 log(i, "crash", type(e).__name__)
-        ts = [asyncio.create_task(one(i, S), name="m%d" % i) for i, S in enumerate(sends)]
+
+        async def one(i, S):
+            await susp(S.get("arrive"))
+            k = AsyncKicker("t%d" % i, brokers[S.get("broker", 0)], typed_labels(tbl, S["labels"]))
+            await step(i, k.with_task_id("id%d" % S["id"]))
+
+        async def chain(idxs):
+            k = None
+            for i in idxs:
+                S = sends[i]
+                asyncio.current_task().set_name("m%d" % i)
+                await susp(S.get("arrive"))
+                if k is None:
+                    k = AsyncKicker("t%d" % i, brokers[S.get("broker", 0)], typed_labels(tbl, S["labels"]))
+                else:
+                    op = S.get("op") or {}
+                    if op.get("broker") is not None:
+                        k = k.with_broker(brokers[op["broker"]])
+                    if op.get("add_mws"):
+                        br = k.broker
+                        new = make_mws(op["add_mws"], tbl, base=100 * br._rec_b + len(br.middlewares))
+                        if op.get("via_with"):
+                            br.with_middlewares(*new)
+                        else:
+                            br.add_middlewares(*new)
+                    if op.get("labels_add") is not None:
+                        k = k.with_labels(**op["labels_add"])
+                await step(i, k.with_task_id("id%d" % S["id"]))
+
+        chains = {}
+        ts = []
+        for i, S in enumerate(sends):
+            if S.get("chain") is None:
+                ts.append(asyncio.create_task(one(i, S), name="m%d" % i))
+            else:
+                chains.setdefault(S["chain"], []).append(i)
+        for c in sorted(chains):
+            ts.append(asyncio.create_task(chain(chains[c]), name="m%d" % chains[c][0]))
         await asyncio.gather(*ts)
+        await drain_inflight()
         return list(LOG), loop.time_us()
 
     lg, end = run_on_loop(main)
